@@ -71,6 +71,7 @@ fn dispatch(mode: &str, a: &Args) -> Args {
         .or_else(|| reqp::dispatch(mode, a))
         .or_else(|| strp::dispatch(mode, a))
         .or_else(|| conn::dispatch(mode, a))
+        .or_else(|| conn::dispatch_writers(mode, a))
         .or_else(|| sync::dispatch(mode, a))
         .unwrap_or_else(|| vec![vec![999_997]])
 }
